@@ -24,6 +24,16 @@ def load(prop):
     return mod
 
 
+def _suite(ctx, prop):
+    """second workload: the inputs the repository's own tests build, harvested at the API
+    boundary, through the same checks (one shard; see vf/suite)"""
+    from .suite.feed import FEEDERS, feed
+    if prop in FEEDERS and not os.environ.get("VF_NO_SUITE"):
+        feed(ctx, prop)
+        if ctx.shard == 0:
+            ctx.floor("suite:inputs", 50)
+
+
 def main(argv=None):
     ap = argparse.ArgumentParser()
     ap.add_argument("prop")
@@ -68,6 +78,7 @@ def main(argv=None):
         ctx = core.Ctx(prop, a.tier, a.seed, s, n)
         try:
             mod.workload(ctx)
+            _suite(ctx, prop)
         except core.StopWorkload:
             ctx.note("workload stopped early after repeated case time-outs")
         with open(a.out, "w") as f:
@@ -84,6 +95,7 @@ def main(argv=None):
             ctx = core.Ctx(prop, a.tier, a.seed, s, nshards)
             try:
                 mod.workload(ctx)
+                _suite(ctx, prop)
             except core.StopWorkload:
                 pass
             parts.append(json.loads(json.dumps(ctx.dump(), default=str)))
